@@ -75,6 +75,32 @@ pub fn child_errchan(args: &[String]) {
     std::process::exit(0);
 }
 
+
+/// `<pri>` then the header fields of the layout, then the message (which may itself contain blanks)
+fn parse_syslog(hdr: &str, got: &str) -> Option<(u64, String)> {
+    let rest = got.strip_prefix('<')?;
+    let (p, rest) = rest.split_once('>')?;
+    let pri: u64 = p.parse().ok()?;
+    let m = if hdr == "5424" {
+        let rest = rest.strip_prefix("1 ")?;
+        let mut it = rest.splitn(6, ' ');
+        let (ts, _host, _app, pid, msgid) = (it.next()?, it.next()?, it.next()?, it.next()?, it.next()?);
+        // RFC 3339 time stamp: `YYYY-MM-DDThh:mm:ss…`
+        if msgid != "fvhid" || pid.parse::<u32>().is_err() || ts.len() < 20 || ts.as_bytes()[10] != b'T' { return None; }
+        it.next()?.strip_prefix("- ")?.to_string()
+    } else {
+        // `Mmm dd hh:mm:ss tag[pid]: msg`
+        let ts = rest.get(..15)?;
+        if !ts.as_bytes()[0].is_ascii_uppercase() || ts.as_bytes()[3] != b' ' || ts.as_bytes()[9] != b':' || ts.as_bytes()[12] != b':' { return None; }
+        let rest = rest.get(16..)?;
+        let (tagpid, m) = rest.split_once("]: ")?;
+        let (_tag, pid) = tagpid.split_once('[')?;
+        if pid.parse::<u32>().is_err() { return None; }
+        m.to_string()
+    };
+    Some((pri, m))
+}
+
 /// the reports in a captured stream / file: the error codes, and the line about an unopenable file
 fn report_kinds(text: &[u8]) -> Vec<String> {
     String::from_utf8_lossy(text).lines().filter_map(|l| {
@@ -125,6 +151,44 @@ pub fn execute(ctx: &mut Ctx, lines: &[String]) -> Vec<String> {
                 let fac: usize = fac.parse().unwrap();
                 let lvl: usize = lvl.parse().unwrap();
                 let text = crate::util::unhexs(msg).unwrap();
+                if *hdr == "both" {
+                    // two syslog writers with DIFFERENT header layouts behind one logger, one record addressed
+                    // to both (`{A,B}`, then `{B,A}`): each line in its own layout, same PRI, same message
+                    let mk = |header: SyslogLineHeader| {
+                        let server = std::net::UdpSocket::bind("127.0.0.1:0").unwrap();
+                        server.set_read_timeout(Some(std::time::Duration::from_secs(5))).unwrap();
+                        let conn = SyslogConnection::try_udp("127.0.0.1:0".to_string(), server.local_addr().unwrap().to_string()).unwrap();
+                        let w = SyslogWriter::builder(conn, header, facs[fac]).max_log_level(log::LevelFilter::Trace).format(crate::props::flw::raw_format).build().unwrap();
+                        (server, w)
+                    };
+                    let (sa, wa) = mk(SyslogLineHeader::Rfc5424("fvhid".to_owned()));
+                    let (sb, wb) = mk(SyslogLineHeader::Rfc3164);
+                    let gate = log::max_level();
+                    let (lg, hd) = Logger::with(LogSpecification::trace()).do_not_log().add_writer("A", wa).add_writer("B", wb).build().unwrap();
+                    let level = [log::Level::Error, log::Level::Warn, log::Level::Info, log::Level::Debug, log::Level::Trace][lvl - 1];
+                    let mut answer: Option<String> = None;
+                    for tg in ["{A,B}", "{B,A}"] {
+                        lg.log(&Record::builder().level(level).target(tg).args(format_args!("{}", text)).build());
+                        hd.flush();
+                        for (h2, sock) in [("5424", &sa), ("3164", &sb)] {
+                            let mut buf = vec![0u8; 65536];
+                            let got = match sock.recv(&mut buf) { Ok(n) => String::from_utf8_lossy(&buf[..n]).to_string(), Err(_) => String::new() };
+                            match parse_syslog(h2, &got) {
+                                Some((pri, m)) => {
+                                    if m != text { ctx.report.fail(&case_id, "syslog-message-not-verbatim", &format!("line {li}: target {tg}, writer {h2}: logged {text:?}, the line {got:?} carries {m:?}")); }
+                                    let a = format!("pri={pri} msg={}", crate::util::hexs(&m));
+                                    if answer.as_ref().is_some_and(|x| *x != a) { ctx.report.fail(&case_id, "syslog-lines-differ", &format!("line {li}: target {tg}, writer {h2}: {a} vs {answer:?}")); }
+                                    answer.get_or_insert(a);
+                                }
+                                None => { ctx.report.fail(&case_id, "syslog-line-malformed", &format!("line {li}: target {tg}: the writer with the RFC {h2} header sent {got:?}")); answer = Some(format!("malformed {}", crate::util::hexs(&got))); }
+                            }
+                        }
+                    }
+                    hd.shutdown();
+                    log::set_max_level(gate);
+                    out.push(answer.unwrap_or_else(|| "nothing".into()));
+                    continue;
+                }
                 let server = std::net::UdpSocket::bind("127.0.0.1:0").unwrap();
                 server.set_read_timeout(Some(std::time::Duration::from_secs(5))).unwrap();
                 let conn = SyslogConnection::try_udp("127.0.0.1:0".to_string(), server.local_addr().unwrap().to_string()).unwrap();
@@ -135,27 +199,7 @@ pub fn execute(ctx: &mut Ctx, lines: &[String]) -> Vec<String> {
                 let _ = LogWriter::flush(&*w);
                 let mut buf = vec![0u8; 65536];
                 let got = match server.recv(&mut buf) { Ok(n) => String::from_utf8_lossy(&buf[..n]).to_string(), Err(_) => String::new() };
-                // <pri> … then the header fields, then the message (which may itself contain blanks)
-                let parsed = (|| -> Option<(u64, String)> {
-                    let rest = got.strip_prefix('<')?;
-                    let (p, rest) = rest.split_once('>')?;
-                    let pri: u64 = p.parse().ok()?;
-                    let m = if *hdr == "5424" {
-                        let rest = rest.strip_prefix("1 ")?;
-                        let mut it = rest.splitn(6, ' ');
-                        let (_ts, _host, _app, pid, msgid) = (it.next()?, it.next()?, it.next()?, it.next()?, it.next()?);
-                        if msgid != "fvhid" || pid.parse::<u32>().is_err() { return None; }
-                        it.next()?.strip_prefix("- ")?.to_string()
-                    } else {
-                        // `Mmm dd hh:mm:ss tag[pid]: msg`
-                        let rest = rest.get(16..)?;
-                        let (tagpid, m) = rest.split_once("]: ")?;
-                        let (_tag, pid) = tagpid.split_once('[')?;
-                        if pid.parse::<u32>().is_err() { return None; }
-                        m.to_string()
-                    };
-                    Some((pri, m))
-                })();
+                let parsed = parse_syslog(hdr, &got);
                 match parsed {
                     Some((pri, m)) => {
                         if m != text {
@@ -283,7 +327,7 @@ pub fn gen_syslog(tier: &str, seed: u64) -> Vec<Vec<String>> {
     for k in 0..(if tier == "thorough" { 240 } else { 48 }) {
         let fac = k % 24;
         let lvl = r.range(1, 5);
-        let hdr = if r.chance(1, 2) { "5424" } else { "3164" };
+        let hdr = *r.pick(&["5424", "3164", "both"]);
         let msg = r.pick_s(&["hello", "two words", "x", "with ]: inside", "- dash first", "ünï 日本", "a=b [c] <d>", "1 2 3 4 5 6 7"]);
         cases.push(vec![format!("CASE std C13 y{k}"), format!("SYSLOGLINE {hdr} {fac} {lvl} {}", crate::util::hexs(msg)), "END".into()]);
     }
